@@ -2883,3 +2883,18 @@ package goatlang
 //@   property C16 C08
 //@   requires wfC(c) && tok != nil
 //@   ensures#forward old(tok.Text != "$" && !(len(c.scope) > 0 && haskey(c.Globals.keyToIndex, c.FuncName+"."+tok.Text)) && !haskey(c.Locals.keyToIndex, tok.Text) && !haskey(c.Globals.keyToIndex, "builtin."+tok.Text)) ==> len(res) == 1 && res[0].Code == codeGlobalGet && haskey(c.Globals.keyToIndex, c.expPrefix(tok.Text)) && int(res[0].A) == c.Globals.keyToIndex[c.expPrefix(tok.Text)]
+//@
+//@ -- a case expression is an expression (its value is compared or tested), never a statement: a
+//@ -- call there must be asked for its one result
+//@ func getCase
+//@   property C07
+//@   trusted
+//@   modifies *
+//@ func switchNud
+//@   property C07 C06
+//@   requires p != nil && t != nil
+//@   modifies *
+//@   ensures#caseexpr calls("(*parser).Statement") == 0
+//@ func switchNud loop 0
+//@   invariant p != nil && t != nil && cases != nil
+//@   invariant#caseexpr calls("(*parser).Statement") == 0
